@@ -16,7 +16,49 @@ import (
 
 var helperOwner map[string]string // "pkg.helper" -> "pkg.Owner"
 
+// localFuncValues: locals with exactly one definition, which is a method value (x.M) or a declared function: a call
+// through such a local is a call of that function; sel is the method value's selector (nil for a plain function).
+type localFuncValue struct {
+	fn  *types.Func
+	sel *ast.SelectorExpr
+}
+
+var localFuncValues = map[types.Object]localFuncValue{}
+
+func computeLocalFuncValues(p *Prog) {
+	localFuncValues = map[types.Object]localFuncValue{}
+	p.funcDecls(func(pk *packages.Package, fd *ast.FuncDecl) {
+		if fd.Body == nil {
+			return
+		}
+		info := pk.TypesInfo
+		for o, d := range singleDefs(info, fd.Body) {
+			if d.n != 1 || d.rhs == nil {
+				continue
+			}
+			if _, isSig := o.Type().Underlying().(*types.Signature); !isSig {
+				continue
+			}
+			switch x := ast.Unparen(d.rhs).(type) {
+			case *ast.SelectorExpr:
+				if s, ok := info.Selections[x]; ok && s.Kind() == types.MethodVal {
+					if f, ok := s.Obj().(*types.Func); ok {
+						localFuncValues[o] = localFuncValue{f, x}
+					}
+				} else if f, ok := info.Uses[x.Sel].(*types.Func); ok {
+					localFuncValues[o] = localFuncValue{f, nil}
+				}
+			case *ast.Ident:
+				if f, ok := info.Uses[x].(*types.Func); ok {
+					localFuncValues[o] = localFuncValue{f, nil}
+				}
+			}
+		}
+	})
+}
+
 func computeOwners(p *Prog) {
+	computeLocalFuncValues(p)
 	helperOwner = map[string]string{}
 	type rec struct {
 		name    string
